@@ -28,7 +28,7 @@ REAL = ['py4hw.logic.arithmetic_fp (FPAdder_SP, FPMult_SP, InttoFP_SP, FPtoInt_S
 STUB = ['stimulus']
 ASSUMPTIONS = ['domain: finite normal operands; adder/multiplier only where the exact result is normal (non-zero, exponent in range)',
                'ulp of a value v = 2**(floor(log2|v|) - 23)']
-PROBES = ['settled_by_clk0', 'block_added_after_simulation', 'add_gap_ge_24', 'add_gap_ge_32', 'add_cancellation', 'mul_exact_normal', 'cmp_equal', 'i2f_exact', 'i2f_lost', 'f2i_exact_odd',
+PROBES = ['operands_from_constant_blocks', 'operands_from_helper_constants', 'outputs_read_at_time_zero', 'settled_by_clk0', 'block_added_after_simulation', 'add_gap_ge_24', 'add_gap_ge_32', 'add_cancellation', 'mul_exact_normal', 'cmp_equal', 'i2f_exact', 'i2f_lost', 'f2i_exact_odd',
           'f2i_fraction', 'f2i_invalid', 'f2i_small']
 
 MANT = [0, 1, 0x400000, 0x7FFFFE, 0x7FFFFF]
@@ -109,44 +109,74 @@ def gen(rs, tier, index):
     fr = rs.get('faults')
     steps = [{'vec': v, 'faults': [f for f in ('resort', 'sim_restart', 'extra_settle') if fr.random() < 0.05]} for v in vecs]
     return {'blk': blk, 'steps': steps, 'perm': rs.sub('perm') if fr.random() < 0.7 else None, 'inregs': rng.random() < 0.5,
-            'settle': fr.choice(['clk1', 'clk1', 'clk0', 'prop']), 'late_dut': fr.random() < 0.2}
+            'settle': fr.choice(['clk1', 'clk1', 'clk0', 'prop']), 'late_dut': fr.random() < 0.2,
+            # operand source: poked wires, Constant blocks that exist before the block under test (value re-assigned every
+            # vector), or placeholders from LogicHelper.hw_constant that all start from the same value
+            'src': fr.choice(['put', 'put', 'const', 'helper_const']),
+            # time_zero: the first vector is applied before the simulator is asked for, outputs are read before any clk()
+            'time_zero': fr.random() < 0.3}
+
+
+class _Box(py4hw.Logic):
+    pass
+
+
+scn_drivers = [None]        # Constant blocks driving the operands of the design built last (None: poked wires)
 
 
 def build(scn):
     hw = py4hw.HWSystem()
     blk = scn['blk']
     nin = 1 if blk in ('i2f', 'f2i') else 2
-    ins = [hw.wire('in%d' % i, 32) for i in range(nin)]
+    src = scn.get('src', 'put') if not scn['inregs'] else 'put'
+    first = scn['steps'][0]['vec'] if scn['steps'] else [0] * nin
+    drivers = None
+    if src == 'const':
+        ins = [hw.wire('in%d' % i, 32) for i in range(nin)]
+        drivers = [py4hw.Constant(hw, 'k%d' % i, first[i], ins[i]) for i in range(nin)]
+    elif src == 'helper_const':
+        from py4hw.helper import LogicHelper
+        g = LogicHelper(hw)
+        ins = [g.hw_constant(32, 0) for i in range(nin)]          # placeholders, one initial value
+        drivers = [x.getSource().parent for x in ins]
+    else:
+        ins = [hw.wire('in%d' % i, 32) for i in range(nin)]
+    scn_drivers[0] = drivers
     feed = ins
     if scn['inregs']:
         feed = [hw.wire('q%d' % i, 32) for i in range(nin)]
         for i in range(nin):
             py4hw.Reg(hw, 'inreg%d' % i, ins[i], feed[i])
     outs = {}
+    par = hw
     if scn.get('late_dut'):
-        # the simulator exists and has run before the block under test is instantiated
+        # the simulator exists and has run before the block under test is instantiated - inside an existing sub-block
+        par = _Box(_Box(hw, 'datapath'), 'inner')
+        t_ = par.wire('tie')
+        py4hw.Constant(par, 'tie', 0, t_)
+        py4hw.Buf(par, 'keep', t_, par.wire('kept'))
         with quiet():
             hw.getSimulator().clk(2)
     with quiet():
         if blk == 'add':
             outs['r'] = hw.wire('r', 32)
-            py4hw.FPAdder_SP(hw, 'dut', feed[0], feed[1], outs['r'])
+            py4hw.FPAdder_SP(par, 'dut', feed[0], feed[1], outs['r'])
         elif blk == 'mul':
             outs['r'] = hw.wire('r', 32)
-            py4hw.FPMult_SP(hw, 'dut', feed[0], feed[1], outs['r'])
+            py4hw.FPMult_SP(par, 'dut', feed[0], feed[1], outs['r'])
         elif blk in ('cmp', 'cmpabs'):
             for k in ('gt', 'eq', 'lt'):
                 outs[k] = hw.wire(k)
-            py4hw.FPComparator_SP(hw, 'dut', feed[0], feed[1], outs['gt'], outs['eq'], outs['lt'], absolute=(blk == 'cmpabs'))
+            py4hw.FPComparator_SP(par, 'dut', feed[0], feed[1], outs['gt'], outs['eq'], outs['lt'], absolute=(blk == 'cmpabs'))
         elif blk == 'i2f':
             outs['r'] = hw.wire('r', 32)
             outs['p_lost'] = hw.wire('p_lost')
-            py4hw.InttoFP_SP(hw, 'dut', feed[0], outs['r'], outs['p_lost'])
+            py4hw.InttoFP_SP(par, 'dut', feed[0], outs['r'], outs['p_lost'])
         else:
             outs['r'] = hw.wire('r', 32)
             for k in ('p_lost', 'denorm', 'invalid'):
                 outs[k] = hw.wire(k)
-            py4hw.FPtoInt_SP(hw, 'dut', feed[0], outs['r'], outs['p_lost'], outs['denorm'], outs['invalid'])
+            py4hw.FPtoInt_SP(par, 'dut', feed[0], outs['r'], outs['p_lost'], outs['denorm'], outs['invalid'])
     return hw, ins, outs
 
 
@@ -262,6 +292,18 @@ def check(blk, vec, o, st, si, other=None):
 def run(scn, log, st):
     blk = scn['blk']
     hw, ins, outs = build(scn)
+    drivers = scn_drivers[0]
+    if drivers is not None:
+        st.probe('operands_from_constant_blocks' if scn.get('src') == 'const' else 'operands_from_helper_constants')
+    time_zero = bool(scn.get('time_zero')) and not scn['inregs'] and not scn.get('late_dut') and bool(scn['steps'])
+    if time_zero:
+        for i_, v_ in enumerate(scn['steps'][0]['vec']):
+            if drivers is None:
+                ins[i_].put(v_)
+            else:
+                drivers[i_].value = v_
+        st.probe('outputs_read_at_time_zero')
+    tz = [time_zero]
     st.sched(scn.get('perm'), tuple(tuple(x['faults']) for x in scn['steps']))
     if scn.get('perm') is not None:
         seams.perm_children(hw, random.Random(scn['perm']), st)
@@ -274,11 +316,16 @@ def run(scn, log, st):
         st.fault('late_add')
         st.probe('block_added_after_simulation')
 
-    def apply(vec):
-        for w, v in zip(ins, vec):
-            w.put(v)
+    def apply(vec, settle=True):
+        for i_, (w, v) in enumerate(zip(ins, vec)):
+            if drivers is None:
+                w.put(v)
+            else:
+                drivers[i_].value = v
         with quiet():
-            if how == 'clk0':
+            if not settle:
+                pass                    # nothing but the creation of the simulator has happened
+            elif how == 'clk0':
                 sim.clk(0)              # settle only, no edge
                 st.probe('settled_by_clk0')
             elif how == 'prop':
@@ -300,10 +347,19 @@ def run(scn, log, st):
                 st.fault('extra_settle')
         vec = step['vec']
         other = None
-        if blk in ('add', 'mul'):
-            other = apply([vec[1], vec[0]])['r']
-            st.cycles += 1
-        o = apply(vec)
+        if tz[0] and si == 1 and not step['faults']:
+            o = apply(vec, settle=False)
+            tz[0] = False
+            if blk in ('add', 'mul'):
+                other = apply([vec[1], vec[0]])['r']
+                o2 = apply(vec)
+                if o2 != o:
+                    raise Violation('fp', 'fp:%s:time-zero' % blk, si, 'outputs right after the creation of the simulator %s, after settling the same operands again %s' % (o, o2))
+        else:
+            if blk in ('add', 'mul'):
+                other = apply([vec[1], vec[0]])['r']
+                st.cycles += 1
+            o = apply(vec)
         st.cycles += 1
         if check(blk, vec, o, st, si, other):
             indomain += 1
